@@ -143,7 +143,7 @@ int EvalExpression::run(AsmContext *asm_context, Var &answer, bool is_paren)
         if (IS_TOKEN(token, '-'))
         {
           // Needed for: 6 + -5.
-          parse_unary_new(asm_context, var);
+          if (parse_unary_new(asm_context, var) != 0) { return -1; }
           var.negative();
           var_stack.push(var);
           count++;
@@ -152,7 +152,7 @@ int EvalExpression::run(AsmContext *asm_context, Var &answer, bool is_paren)
         if (IS_TOKEN(token, '~'))
         {
           // Needed for: ~0xfe.
-          parse_unary_new(asm_context, var);
+          if (parse_unary_new(asm_context, var) != 0) { return -1; }
           var.complement();
           var_stack.push(var);
           count++;
@@ -288,7 +288,11 @@ int EvalExpression::parse_unary_new(AsmContext *asm_context, Var &answer)
   }
     else
   {
-    print_error_unexp(asm_context, token);
+    if (asm_context->pass != 1)
+    {
+      print_error_unexp(asm_context, token);
+    }
+
     return -1;
   }
 
